@@ -178,22 +178,33 @@ def model_line(reent, faults, ops):
             f"faults={','.join(map(str, sorted(faults)))} ops={';'.join(enc_op(o) for o in ops)}")
 
 
-def run_seq(reent, faults, ops, workdir, expand=False):
+def run_seq(reent, faults, ops, workdir, expand=False, ctor=None):
     """Execute ops one after the other on real FileLock objects over one real lock file.
     op = ('a', obj, thread, mode) with mode 'n' | 'b' | 't<ticks>'   or   ('r', obj, thread, force)   or
     ('x', obj, thread, mode): a whole `with obj.acquire_ctx(...)` block (mode 'w': the plain with-statement; 'we': the same with a body
     that raises - the block is left through `__exit__(exc_type, exc, tb)`),
     which counts as the acquire followed - only when the block was entered - by a plain release.
     Returns list of 'res/locked/open/elapsed' strings (same format as the model) and the Env; with
-    `expand` also the operation list in which every 'x' is replaced by what it amounted to."""
+    `expand` also the operation list in which every 'x' is replaced by what it amounted to.
+    `ctor[i]` = default timeout (ticks) given to object i's constructor: its plain `acquire()` and `with obj:` are then
+    timed acquires, and appear as such in the expanded list."""
     global ENV
     FL = install()
     ENV = Env(faults)
     env = ENV
     path = _os.path.join(workdir, 'seq.lock')
-    objs = [FL.FileLock(path, reentrant=r) for r in reent]
+    ctor = list(ctor) if ctor else [None] * len(reent)
+    import pathlib
+    # the lock file may be given as any path-like: object 1 gets a pathlib.Path, object 0 a str
+    objs = [FL.FileLock(pathlib.Path(path) if i % 2 else path, reentrant=r,
+                        **({} if ctor[i] is None else {'timeout': ctor[i] * TICK}))
+            for i, r in enumerate(reent)]
     out = []
     flat = []
+
+    def eff(o, m):
+        # what a blocking acquire amounts to on an object constructed with a default timeout
+        return f't{ctor[o]}' if m == 'b' and ctor[o] is not None else m
 
     def snap(res, t0):
         locked = ''.join('1' if ob.is_locked else '0' for ob in objs)
@@ -210,7 +221,7 @@ def run_seq(reent, faults, ops, workdir, expand=False):
             try:
                 if op[0] == 'a':
                     m = op[3]
-                    flat.append(op)
+                    flat.append(('a', op[1], op[2], eff(op[1], m)))
                     if m == 'n':
                         r = o.acquire(blocking=False)
                     elif m == 'b':
@@ -223,7 +234,7 @@ def run_seq(reent, faults, ops, workdir, expand=False):
                     body_raises = m.endswith('e')          # 'we': the body of the with-statement raises
                     if body_raises:
                         m = m[:-1]
-                    flat.append(('a', op[1], op[2], 'b' if m == 'w' else m))
+                    flat.append(('a', op[1], op[2], eff(op[1], 'b' if m == 'w' else m)))
                     if m == 'w':
                         cm = o
                     elif m == 'n':
@@ -516,7 +527,11 @@ def gen_threads(rng):
                 form = 'withx'
             rounds.append((o, form, nested, force, hold))
         scripts.append(rounds)
-    return {'reent': reent, 'scripts': scripts}
+    scn = {'reent': reent, 'scripts': scripts}
+    if rng.random() < 0.3:
+        # objects constructed with a default timeout: plain acquire() and `with ob:` are timed acquires
+        scn['ctor'] = [rng.choice([None, 30, 60]) for _ in range(nobj)]
+    return scn
 
 
 def run_threads(scn, seed, workdir, choices=None, pct=0):
@@ -529,8 +544,9 @@ def run_threads(scn, seed, workdir, choices=None, pct=0):
     BENV = E
     path = _os.path.join(workdir, 'thr.lock')
     objs = []
+    ctor = scn.get('ctor') or [None] * len(scn['reent'])
     for i, r in enumerate(scn['reent']):
-        ob = FL.FileLock(path, reentrant=r)
+        ob = FL.FileLock(path, reentrant=r, **({} if ctor[i] is None else {'timeout': ctor[i] * TICK}))
         ob._thread_lock.oid = i
         objs.append(ob)
 
@@ -571,7 +587,11 @@ def run_threads(scn, seed, workdir, choices=None, pct=0):
                 ob = objs[o]
                 if form == 'with':
                     E.ctx[me] = 'acquire'
-                    ob.__enter__()
+                    try:
+                        ob.__enter__()
+                    except TimeoutError:          # default timeout of the object expired: the block is not entered
+                        E.ctx[me] = None
+                        continue
                     E.ctx[me] = None
                     critical(me, hold)
                     S.point('release')
@@ -581,10 +601,14 @@ def run_threads(scn, seed, workdir, choices=None, pct=0):
                     E.ctx[me] = None
                     continue
                 if form == 'withx':
-                    for _ in range(2):
-                        E.ctx[me] = 'acquire'
+                    E.ctx[me] = 'acquire'
+                    try:
                         ob.__enter__()
+                    except TimeoutError:
                         E.ctx[me] = None
+                        continue
+                    ob.__enter__()
+                    E.ctx[me] = None
                     S.point('release')
                     E.labels.append(f'rb:{me}:{o}:0')
                     E.ctx[me] = 'release'
